@@ -194,6 +194,51 @@ func c01run(c *fw.Ctx, idx int) {
 		}
 		c.Count("executions_"+cf.name, 1)
 	}
+	// rebinding: the SAME parsed templates (one Set) executed with the name userw bound to a SafeWriter, then to an
+	// ordinary function (whose result is a value like any other: escaped), then to the SafeWriter again; which
+	// binding comes first alternates. What bypasses the escaper is decided per execution, never remembered.
+	if fm["writer-userw"] {
+		cf := configs[idx%3]
+		var opts []jet.Option
+		if cf.opt != nil {
+			opts = append(opts, cf.opt)
+		}
+		set := p.NewSet(false, opts...)
+		const plain = "<U&'\">"
+		asFunc := func(interface{}) string { return plain }
+		escd := plain
+		if cf.esc != nil {
+			escd = cf.esc(plain)
+		}
+		for step := 0; step < 3; step++ {
+			isWriter := (step+idx)%2 == 0
+			w2 := map[string]func(string) string{}
+			for k, v := range writers {
+				w2[k] = v
+			}
+			ex2 := map[string]interface{}{}
+			for k, v := range extra {
+				ex2[k] = v
+			}
+			if !isWriter {
+				w2["userw"] = func(string) string { return escd }
+				ex2["userw"] = asFunc
+			}
+			m := prog.EvalWith(p, cf.esc, w2)
+			if m.Unspecified != "" {
+				break
+			}
+			o := p.Run(prog.RunOpts{Set: set, ExtraVars: ex2})
+			c.Eval(1)
+			m.Out, o.Out = c01merge(m.Out), c01merge(o.Out)
+			if class, detail := prog.Compare(m, o, false); class != "" {
+				c.Journal(map[string]interface{}{"rebinding_step": step, "userw_is_safewriter": isWriter})
+				c.Violation("c01:rebinding:"+cf.name+":"+class, "", map[string]interface{}{"mismatch": class, "detail": c01short(detail), "escaper": cf.name, "step": step, "userw_is_safewriter": isWriter})
+				return
+			}
+			c.Count("executions_rebinding", 1)
+		}
+	}
 	sites := 0
 	for _, f := range feats {
 		if strings.HasPrefix(f, "site@") {
